@@ -394,7 +394,8 @@ pub fn eval_real<T: ADNum>(e: &E, leaves: &[T], out: &mut Vec<NodeObs<T>>) -> T 
                 "real"
             };
             let neg_base = x.real() < 0.0;
-            (T::pow(x, *p, *o), format!("pow:{}:{}{}", if *o { "owned" } else { "ref" }, cls, if neg_base { ":negbase" } else { "" }), None, None)
+            let zero_base = x.real() == 0.0;
+            (T::pow(x, *p, *o), format!("pow:{}:{}{}", if *o { "owned" } else { "ref" }, cls, if neg_base { ":negbase" } else if zero_base { ":zerobase" } else { "" }), None, None)
         }
         E::Exp(a) => (T::exp(&eval_real(a, leaves, out)), "exp".to_string(), None, None),
         E::Log(a) => (T::log(&eval_real(a, leaves, out)), "log".to_string(), None, None),
@@ -437,7 +438,8 @@ pub struct Gen<'a> {
 }
 
 fn mag_ok(v: f64) -> bool {
-    v.is_finite() && v.abs() >= 1e-8 && v.abs() <= 1e8
+    // exact zeros are part of the domain (x - x, a zero rate); tiny non-zero values are not generated
+    v == 0.0 || (v.is_finite() && v.abs() >= 1e-8 && v.abs() <= 1e8)
 }
 
 impl<'a> Gen<'a> {
@@ -471,6 +473,9 @@ impl<'a> Gen<'a> {
     }
 
     pub fn leaf_value(&mut self) -> f64 {
+        if self.r.chance(0.03) {
+            return 0.0;
+        }
         match self.r.below(6) {
             0 => self.r.uniform(0.01, 0.99), // usable by inv_norm_cdf
             1 => -self.r.log_uniform(1e-2, 1e2),
@@ -596,7 +601,10 @@ impl<'a> Gen<'a> {
                         6 => -1.0,
                         _ => self.r.uniform(-2.5, 3.5),
                     };
-                    let ok = if p.fract() == 0.0 { ra.v.abs() >= 1e-3 } else { ra.v >= 1e-3 };
+                    // a base of exactly zero is in the differentiable domain for p >= 1 (first order) and for
+                    // p >= 2 or p in {0, 1} (second order)
+                    let zero_ok = ra.v == 0.0 && if self.order == 1 { p >= 1.0 || p == 0.0 } else { p >= 2.0 || p == 1.0 || p == 0.0 };
+                    let ok = zero_ok || if p.fract() == 0.0 { ra.v.abs() >= 1e-3 } else { ra.v >= 1e-3 };
                     if ok {
                         Some((E::Pow(Box::new(a), p, o), RNum::powf(&ra, p, &mut nz)))
                     } else {
@@ -725,7 +733,7 @@ pub fn forced_pair(g: &mut Gen, rel: usize) -> (usize, usize) {
     }
 }
 
-pub const N_FORCED: u64 = 4 * (20 + 4 + 4) + 2 + 2 * 7 + 6 + 6;
+pub const N_FORCED: u64 = 4 * (20 + 4 + 4) + 2 + 2 * 7 + 6 + 6 + 8;
 
 /// deterministic enumeration of one small tree per required coverage class
 pub fn forced_tree(g: &mut Gen, idx: u64) -> E {
@@ -799,6 +807,22 @@ pub fn forced_tree(g: &mut Gen, idx: u64) -> E {
         };
     }
     k -= 6;
+    if k >= 6 {
+        // powers of a base that is exactly zero: a zero-valued leaf, and a difference that cancels
+        let j = k - 6;
+        let owned = j % 2 == 0;
+        let p = [2.0, 1.0, 3.0, 2.0][(j / 2) as usize];
+        if j / 2 == 3 {
+            let a = g.new_leaf_nonzero();
+            let v = g.leaves[a].v;
+            let b = g.new_leaf_nonzero();
+            g.leaves[b].v = v;
+            return E::Pow(Box::new(E::DD(Op2::Sub, Box::new(E::Leaf(a)), Box::new(E::Leaf(b)), 3)), p, owned);
+        }
+        let a = g.new_leaf_nonzero();
+        g.leaves[a].v = 0.0;
+        return E::Pow(Box::new(E::Leaf(a)), p, owned);
+    }
     // sums of 0..5 terms
     let n = k as usize;
     let mut es = vec![];
